@@ -2,7 +2,7 @@
 # Runs the repository's pinned test suite (guard off) and compares with BASELINE.json stable_pass.
 export GOFLAGS=-mod=mod GOPROXY=off GOSUMDB=off
 out=${1:-/tmp/baseline_run.json}
-cd /repo && go test -json -vet=off -count=1 -timeout 25m ./... > $out 2>/dev/null
+cd ${REPO:-/repo} && go test -json -vet=off -count=1 -timeout 25m ./... > $out 2>/dev/null
 python3 - "$out" <<'PY'
 import json,sys
 res={}
